@@ -914,7 +914,16 @@ func (e *Engine) checkInvariants(st *State, lc *LoopContract, kind string, pos t
 			if len(e.skolemOf) > 0 {
 				h := e.invHead.clone()
 				e.instWith, e.pol = e.skolemOf, 1
+				// the instance speaks about the loop head: also the ghost set of visited keys is the head's
+				var saveVis T
+				if e.invHeadVis.s != "" && len(e.visStack) > 0 {
+					saveVis = e.visStack[len(e.visStack)-1]
+					e.visStack[len(e.visStack)-1] = e.invHeadVis
+				}
 				inst := e.evalClause(h, inv, nil)
+				if saveVis.s != "" {
+					e.visStack[len(e.visStack)-1] = saveVis
+				}
 				e.instWith, e.pol = nil, 0
 				e.facts = append(e.facts, Fact{Implies(e.invHead.pc, inst), "loop invariant (instance at the goal's constants)"})
 			}
